@@ -231,6 +231,7 @@ impl Engine for C15 {
             min_len: if sub == "cgr" { 0 } else { 1 },
             dup_pct: 15,
             tab_desc_pct: 0,
+            utf8_id_pct: 0,
             dup_id_pct: 0,
         };
         let mut records = g.gen(rng);
